@@ -2265,6 +2265,8 @@ class Attribute(object):
         if attr.lazy:
             entity = attr.entity
             database = entity._database_
+            if cache is not database._get_cache():
+                throw(TransactionError, "Object %s doesn't belong to current transaction" % safe_repr(obj))
             if not attr.lazy_sql_cache:
                 select_list = [ 'ALL' ] + [ [ 'COLUMN', None, column ] for column in attr.columns ]
                 from_list = [ 'FROM', [ None, 'TABLE', entity._table_ ] ]
@@ -3377,11 +3379,13 @@ class SetInstance(object):
             if setdata.count is not None: return not setdata.count
         cache = obj._session_cache_
         if cache is None or not cache.is_alive: throw_db_session_is_over('read value of', obj, attr)
-        if setdata is None: setdata = obj._vals_[attr] = SetData()
         entity = attr.entity
         reverse = attr.reverse
         rentity = reverse.entity
         database = entity._database_
+        if cache is not database._get_cache():
+            throw(TransactionError, "Object %s doesn't belong to current transaction" % safe_repr(obj))
+        if setdata is None: setdata = obj._vals_[attr] = SetData()
         cached_sql = attr.cached_empty_sql
         if cached_sql is None:
             where_list = [ 'WHERE' ]
@@ -3439,6 +3443,8 @@ class SetInstance(object):
         entity = attr.entity
         reverse = attr.reverse
         database = entity._database_
+        if cache is not database._get_cache():
+            throw(TransactionError, "Object %s doesn't belong to current transaction" % safe_repr(obj))
         cached_sql = attr.cached_count_sql
         if cached_sql is None:
             where_list = [ 'WHERE' ]
